@@ -8,7 +8,7 @@
    tree_shake (optimisation.rs) and merge_bytecode (environment.rs) are NOT modelled: each of their
    outputs is checked by the extracted `is_renaming`, and the theorems below say what an accepted
    pair guarantees. serde_json is not modelled: the JSON leg is validated field-wise only. *)
-From Quiver Require Import vm.Remap vm.RemapProofs.
+From Quiver Require Import vm.Wf vm.Remap vm.RemapProofs vm.RemapWf.
 
 (* Lock-step simulation. For every function the renaming maps — every function reachable from the
    entry is (next theorem) — every argument, every captured environment and every sequence of outside
@@ -62,3 +62,41 @@ Theorem C10_nonvacuous :
     (xrun Examples.exX' (fun _ _ => false) (init_state 1 [] vnil false) (repeat Examples.quiet 16)).
 Proof. exact (conj Examples.ex_accepts (conj Examples.ex_rejects_constant Examples.ex_simulation_applies)). Qed.
 Print Assumptions C10_nonvacuous.
+
+(* C07's verifier verdict carries over, certificate for certificate, to every function the
+   renaming maps (tree-shaken and merged programs need no new proof of well-formedness; the merged
+   program may also hold other programs' functions, about which nothing is claimed) *)
+Theorem C10_wf_stable_under_renaming : forall rho X X' As, is_renaming rho X X' = true ->
+  check_program (project X) As = true ->
+  forall f f', app (r_f rho) f = Some f' ->
+  exists A fd', nth_error As f = Some A /\ nth_error (p_funcs (project X')) f' = Some fd' /\
+                check_function (project X') fd' A = true.
+Proof. exact wf_stable_under_renaming. Qed.
+Print Assumptions C10_wf_stable_under_renaming.
+
+(* value_reemit (imports): `emit_cached` models compiler.rs value_to_instructions_from_cache, what
+   `%m` / `%m.f` compile to. For every value it accepts (it refuses exactly process / resource / ref
+   and dangling ids) that is well-formed for the program (tuples of their arity, closures of their
+   capture count), the program only grows (prefix-wise) and, in ANY later growth Y of it, the emitted
+   code — wherever it is spliced into a function, on any stack, locals and frames — pushes exactly
+   that value and changes nothing else. Binary constants: the pushed handle is the one allocation
+   returns (`emit_inputs`), their bytes are the registered constant (binaries are opaque in vm/Vm.v). *)
+Theorem C10_value_reemit : forall bytes_of v X X1 code,
+  emit_cached bytes_of v X = Some (X1, code) -> wfx X v ->
+  extends X X1 /\
+  forall Y, extends X1 Y ->
+  forall fn fd pre post st lo base caps rest pers,
+    nth_error (x_funcs Y) fn = Some fd -> xf_code fd = pre ++ code ++ post ->
+    run (project Y) (at_pc st lo fn base caps (length pre) rest pers) (emit_inputs v) =
+    Next (at_pc (v :: st) lo fn base caps (length pre + length code) rest pers).
+Proof. exact value_reemit. Qed.
+Print Assumptions C10_value_reemit.
+
+(* non-vacuity of value_reemit: a named tuple holding a closure over an integer and a binary, a
+   nested tuple and a builtin; the emitted code (one constant is shared with the program) rebuilds it *)
+Theorem C10_value_reemit_nonvacuous :
+  option_map snd (emit_cached Examples.ex_bytes Examples.ex_value Examples.exM) =
+    Some [IConstant 0; IConstant 1; IFunction 0; IConstant 2; IBuiltin 0; ITuple 2; ITuple 2] /\
+  wfx Examples.exM Examples.ex_value.
+Proof. exact (conj Examples.ex_emit Examples.ex_emit_wf). Qed.
+Print Assumptions C10_value_reemit_nonvacuous.
